@@ -3,7 +3,8 @@
 import json, glob
 print("| seed | breaks | what it needs to manifest | caught by (quick tier, seed 1) | missed by |")
 print("|------|--------|---------------------------|--------------------------------|-----------|")
-for d in sorted(glob.glob('/verif/seeded/*/meta.json')):
+import re as _re
+for d in sorted(glob.glob('/verif/seeded/S*/meta.json'), key=lambda x: int(_re.search(r'/S(\d+)-', x).group(1))):
     m = json.load(open(d))
     c, mi = [], []
     for k, v in m['detection'].items():
